@@ -23,12 +23,12 @@ type obj struct {
 }
 
 type Store struct {
-	mu    sync.Mutex
-	name  string
-	objs  map[string]*obj
-	clock int64
-	last  time.Time
-	Trace []string
+	mu         sync.Mutex
+	name       string
+	objs       map[string]*obj
+	clock      int64
+	last       time.Time
+	Trace      []string
 	readerMode int
 }
 
@@ -67,6 +67,8 @@ func (s *Store) Get(_ context.Context, k string) (io.ReadCloser, error) {
 		return &modeReader{data: data, max: 1}, nil
 	case 2:
 		return &modeReader{data: data, eofWithData: true}, nil
+	case 3:
+		return &modeReader{data: data, fileLike: true}, nil
 	}
 	return rc{bytes.NewReader(data)}, nil
 }
@@ -76,9 +78,13 @@ type modeReader struct {
 	data        []byte
 	max         int
 	eofWithData bool
+	fileLike    bool // like os.File: a read into an empty slice returns (0, nil) even at the end
 }
 
 func (m *modeReader) Read(p []byte) (int, error) {
+	if m.fileLike && len(p) == 0 {
+		return 0, nil
+	}
 	if len(m.data) == 0 {
 		return 0, io.EOF
 	}
@@ -242,5 +248,6 @@ func (s *Store) Clone() *Store {
 }
 
 // ReaderMode selects how Get streams deliver their bytes: 0 = all available at once with a
-// separate EOF (bytes.Reader), 1 = one byte per call, 2 = EOF reported together with the last bytes.
+// separate EOF (bytes.Reader), 1 = one byte per call, 2 = EOF reported together with the last bytes,
+// 3 = bulk like 0 but a read into an empty slice returns (0, nil) even at the end (os.File).
 func (s *Store) SetReaderMode(m int) { s.readerMode = m }
